@@ -91,7 +91,7 @@ def azimuthal_clause(cl, rng, n, replay):
         for j in range(n):
             h, f, As = gen_az(rng, naz=int(rng.integers(1, 5)))
             if rng.random() < 0.5:
-                h.azimuths = [float(a) + float(rng.choice([0.0, 0.5, 0.25])) for a in h.azimuths]
+                h.azimuths = [min(180.0, float(a) + float(rng.choice([0.0, 0.5, 0.25]))) for a in h.azimuths]      # legal azimuths lie in [0, 180]
             h.meta["processing_method"] = "azimuthal"
             if len(h.azimuths) > 1 and rng.random() < 0.6:
                 h.azimuths = [float(a) for a in rng.permutation(h.azimuths)]       # azimuths need not be given in ascending order
